@@ -9,21 +9,24 @@ in lock step, on a set-valued state machine written from the statement and docs/
   * is_set(obj).<f>                         == f in fields_set(obj),
   * serialize(T, obj)            (default)  emits exactly the set fields,
   * serialize(T, obj, exclude_unset=False)  emits every field,
-  * earlier instances (source of replace, superseded instances) still have the set the model gives them.
+  * earlier instances (source of replace, superseded instances) still have the set the model gives them,
+  * the same data deserialized as a list item / as a field of an undecorated wrapper gives the same set on the nested instance.
 
 The model is three-valued per field (set / unset / unspecified); unspecified memberships are not compared and counted.
 """
 import itertools
 import json
+import time
 
 from vf import harness
 
 PROP = "C15"
 SHARDS = {"quick": 8, "thorough": 16}
-TIME_CAP = {"quick": 60, "thorough": 900}
+TIME_CAP = {"quick": 240, "thorough": 1500}   # wall-clock guard only (loaded machines); budgets are counts
+CPU_CAP = {"quick": 60, "thorough": 700}       # CPU seconds per worker (nominal: ~8 s quick, ~80 s thorough)
 REQUIRED = ["histories", "steps_checked", "fields_set_checks", "is_set_checks", "serialize_default_checks", "serialize_all_checks",
             "op:ctor", "op:deser", "op:assign", "op:set", "op:set_overwrite", "op:unset", "op:replace",
-            "override_constructors_histories", "old_instance_checks", "nested_serialize_checks", "global_setting_checks",
+            "override_constructors_histories", "old_instance_checks", "nested_serialize_checks", "nested_deserialize_checks", "global_setting_checks",
             "undecorated_class_checks", "nonempty_unset_observed", "random_histories"]
 RULE = ("enumerated with_fields_set dataclass families (plain, default_as_set, init=False, __post_init__ assigning fields, InitVar (default / required), "
         "undecorated base -> decorated, decorated -> undecorated dataclass, decorated -> undecorated -> decorated, decorated -> decorated, plain subclass of a decorated class, "
@@ -299,7 +302,7 @@ class Runner:
         feats = {"kind": kind, "family": fam.fid, "op": ops[step][0] if step is not None and step < len(ops) else None,
                  "override_dataclass_constructors": self.override}
         feats.update(extra_feat or {})
-        self.env.violation(feats, {"family": fam.fid, "source": fam.source, "class": fam.T.__name__, "ops": [list(o) for o in ops], "step": step,
+        self.env.violation(feats, {"family": fam.fid, "source": fam.source, "class": fam.T.__name__, "ops": json.loads(json.dumps(ops)), "step": step,
                                    "override_dataclass_constructors": self.override, **wit})
 
     # ---- one step on the real object
@@ -425,6 +428,25 @@ class Runner:
                 if label == "wrapper" and set(o.value) != {"item", "n"}:
                     self.violation("serialize-exclude_unset-mismatch", ops, len(ops) - 1, {"mode": "undecorated-wrapper-own-fields"}, observed=o.value)
 
+    def check_nested_deser(self, op, st, ops):
+        """the same data deserialized as an item of a list and as a field of an undecorated wrapper dataclass"""
+        from typing import List
+
+        env, fam = self.env, self.fam
+        data = {fam.alias[n]: self.val(n) for n in op[1]}
+        for label, tp, datum, pick in (("list", List[fam.T], [data], lambda r: r[0]), ("wrapper", fam.W, {"item": data}, lambda r: r.item)):
+            o = harness.call(self.deserialize, tp, datum)
+            env.count("nested_deserialize_checks")
+            if o.kind != "ok":
+                self.violation("exception", ops, 0, {"exc": o.exc or "ValidationError", "observer": "nested-deserialize-" + label}, outcome=o.brief())
+                continue
+            fs, ok = self.observe_set(pick(o.value))
+            obs = set(fs) & set(fam.names) if ok else None
+            if obs is None or obs != st.S:
+                self.violation("fields_set-mismatch", ops, 0, {"nested": label, "missing": sorted({fam.field_kind(n) for n in st.S - (obs or set())}),
+                                                               "extra": sorted({fam.field_kind(n) for n in (obs or set()) - st.S})},
+                               expected=sorted(st.S), observed=repr(fs))
+
     def check_untracked(self, obj, ops, step):
         """never decorated class: exclude_unset has no effect (docs note)"""
         env, fam = self.env, self.fam
@@ -449,6 +471,8 @@ class Runner:
                         olds.append((cur, st))
                     cur = self.real_create(op)
                     st = model_create(fam, op[1]) if fam.tracked else None
+                    if st is not None and k == "deser" and len(ops) == 1:
+                        self.check_nested_deser(op, st, ops)
                     if st is None and fam.tracked:
                         fs, ok = self.observe_set(cur)
                         env.count("abstain:constructor-of-undecorated-subclass")
@@ -536,6 +560,11 @@ def check_global_setting(env, fam):
         harness.reset_all()
 
 
+def over_budget(env):
+    """CPU-time guard (robust against a loaded machine) + the framework's wall-clock guard"""
+    return time.process_time() > CPU_CAP[env.tier] or env.out_of_time()
+
+
 def run(env):
     from apischema import settings
 
@@ -562,20 +591,20 @@ def run(env):
                     idx += 1
                     if idx % env.nshards != env.shard:
                         continue
-                    if env.out_of_time():
-                        env.notes.append("time cap reached during the exhaustive part")
+                    if over_budget(env):
+                        env.notes.append("budget guard reached during the exhaustive part")
                         env.count("exhaustive_truncated")
                         break
                     # every proper prefix is a history of its own: longer histories check their last two steps only
                     runner.run(ops, check_from=max(0, len(ops) - 2))
                     env.count("exhaustive_histories")
                     if len(env.samples) < 2 and len(ops) == 3 and idx % 977 == 0:
-                        env.sample({"family": fam.fid, "ops": [list(o) for o in ops]})
+                        env.sample({"family": fam.fid, "ops": json.loads(json.dumps(ops))})
             # random long histories
             n = env.n(6000, 120000) // (2 if not override else 4)
             for j in range(n):
-                if env.out_of_time():
-                    env.notes.append("time cap reached during the random part")
+                if over_budget(env):
+                    env.notes.append("budget guard reached during the random part")
                     break
                 fam = env.rng.choice(fams)
                 ops = random_history(env.rng, fam, 8)
@@ -607,7 +636,7 @@ def replay(env, rep):
     try:
         settings.deserialization.override_dataclass_constructors = bool(w.get("override_dataclass_constructors"))
         harness.reset_all()
-        ops = tuple(tuple(tuple(x) if isinstance(x, list) else x for x in o) for o in w.get("ops", []))
+        ops = tuple(tuple(tuple(x) if isinstance(x, list) else x for x in o) for o in w.get("ops") or [])
         if ops:
             Runner(env, fam, bool(w.get("override_dataclass_constructors"))).run(ops)
         else:
